@@ -1198,6 +1198,12 @@ func inDurFloat(div string) libIntrinsic {
 		if !ok {
 			return nil, false
 		}
+		if sv.tbl != nil {
+			d, _ := strconv.ParseFloat(div, 64)
+			if r, _, ok := fr.m.lift(a[:1], func(c []value) (value, bool) { return float64(asInt64(c[0])) / d, true }); ok {
+				return r, true
+			}
+		}
 		return mkReal("(/ (to_real "+sv.t+") "+div+")", types.Float64), true
 	}
 }
